@@ -1329,12 +1329,28 @@ func (alienCodec) Name() string { return "alien" }
 // every operation returns in bounded time — in particular a Receive made while the request side
 // is still open.
 func (e *liveEnv) liveRejected(r *h.Run, fam, kind, proto string, h2 bool) {
+	e.liveRejectedFor(r, fam, kind, proto, h2, "codec")
+	if kind == "bidi" || r.Thorough() {
+		e.liveRejectedFor(r, fam, kind, proto, h2, "timeout")
+	}
+}
+
+func (e *liveEnv) liveRejectedFor(r *h.Run, fam, kind, proto string, h2 bool, reason string) {
 	c, url, hc := e.newCall(r, "C14", fam, kind, proto, h2, hprog{})
 	opts := liveClientOpts(proto)
-	opts = append(opts, connect.WithCodec(alienCodec{}))
+	badTimeout := func(hd http.Header) {}
+	if reason == "codec" {
+		opts = append(opts, connect.WithCodec(alienCodec{}))
+		c.log = append(c.log, "[the client's codec is one the handler does not have: the call is answered with 415]")
+	} else {
+		// a timeout header the handler cannot parse (a foreign client, a header set by hand)
+		badTimeout = func(hd http.Header) {
+			hd.Set(map[bool]string{true: "Connect-Timeout-Ms", false: "Grpc-Timeout"}[proto == "connect"], "soon")
+		}
+		c.log = append(c.log, "[the request carries a timeout header the handler cannot parse: the call is refused as invalid_argument]")
+	}
 	client := connect.NewClient[h.Raw, h.Raw](hc, url, opts...)
-	c.log = append(c.log, "[the client's codec is one the handler does not have: the call is answered with 415]")
-	r.Eval(fam, fmt.Sprintf("rejected/%s/%s/%v", kind, proto, h2))
+	r.Eval(fam, fmt.Sprintf("rejected/%s/%s/%s/%v", reason, kind, proto, h2))
 	// ended when the program is over: an operation that never returned (already reported by its
 	// step) must not keep the handler, and with it the server's shutdown, waiting
 	ctx, cancel := context.WithCancel(context.Background())
@@ -1342,6 +1358,7 @@ func (e *liveEnv) liveRejected(r *h.Run, fam, kind, proto string, h2 bool) {
 	switch kind {
 	case "bidi":
 		st := client.CallBidiStream(ctx)
+		badTimeout(st.RequestHeader())
 		c.step("Send", func() error { return st.Send(bigMsg(16)) })
 		err, ok := c.step("Receive (request side still open)", func() error { _, err := st.Receive(); return err })
 		if ok && err == nil {
@@ -1351,6 +1368,7 @@ func (e *liveEnv) liveRejected(r *h.Run, fam, kind, proto string, h2 bool) {
 		c.step("CloseResponse", func() error { return st.CloseResponse() })
 	case "client":
 		st := client.CallClientStream(ctx)
+		badTimeout(st.RequestHeader())
 		c.step("Send", func() error { return st.Send(bigMsg(16)) })
 		err, ok := c.step("CloseAndReceive", func() error { _, err := st.CloseAndReceive(); return err })
 		if ok && err == nil {
@@ -1358,7 +1376,9 @@ func (e *liveEnv) liveRejected(r *h.Run, fam, kind, proto string, h2 bool) {
 		}
 	default:
 		err, ok := c.step("CallUnary", func() error {
-			_, err := client.CallUnary(ctx, connect.NewRequest(bigMsg(16)))
+			req := connect.NewRequest(bigMsg(16))
+			badTimeout(req.Header())
+			_, err := client.CallUnary(ctx, req)
 			return err
 		})
 		if ok && err == nil {
